@@ -174,29 +174,31 @@ impl<SystemType : System> SysCache<SystemType>
         if system.is_dir(&self.path)
         {
             let cache_path = format!("{}/{}", self.path, ticket.human_readable());
-            if system.is_file(&cache_path)
+
+            /*  Rules with identical targets share one cache entry.  Between the check and the
+                rename another rule may take the entry, and yet another may put an equal file
+                back after that, so a failed rename is not an error in itself: look again, and
+                only give up when the entry stays put and the rename keeps failing. */
+            let mut attempts_left = 100;
+            loop
             {
+                if ! system.is_file(&cache_path)
+                {
+                    return RestoreResult::NotThere;
+                }
+
                 match system.rename(&cache_path, &target_path)
                 {
+                    Ok(()) => return RestoreResult::Done,
                     Err(error) =>
                     {
-                        /*  Another rule with an identical target may have taken the
-                            file between the check above and the rename. */
-                        if system.is_file(&cache_path)
+                        attempts_left -= 1;
+                        if attempts_left == 0
                         {
-                            RestoreResult::SystemError(error)
-                        }
-                        else
-                        {
-                            RestoreResult::NotThere
+                            return RestoreResult::SystemError(error);
                         }
                     },
-                    Ok(()) => RestoreResult::Done
                 }
-            }
-            else
-            {
-                RestoreResult::NotThere
             }
         }
         else
